@@ -25,22 +25,21 @@ Proof.
     try (now apply read_any_fq); rewrite fqq_double; reflexivity.
 Qed.
 
-Definition itable_tbl (t : itable) : table := match t with ITObj t => t | ITStr s => mk_table s None end.
+Definition itable_tbl (t : itable) : table := match t with ITObj t => t | ITStr s => tbl s end.
 
 Lemma itable_text_facts : forall t rest, itable_ok t = true ->
   read_table_any (itable_text t ++ String "(" rest) = Some (itable_tbl t, String "(" rest).
 Proof.
-  intros [s|[n [sc|]]] rest H; unfold itable_ok in H; unfold itable_text, itable_tbl.
+  intros t rest H.
+  assert (G : forall tb, table_ok QDouble tb = true ->
+              read_table_any (render_table QDouble tb ++ String "(" rest) = Some (tb, String "(" rest)).
+  { intros tb Htb. unfold read_table_any. apply read_table_gen_ok; auto.
+    intros x r Hx _. now apply read_any_fq. }
+  destruct t as [s|tb]; unfold itable_ok in H; unfold itable_text, itable_tbl.
   - apply Bool.andb_true_iff in H as [H _].
-    unfold read_table_any. rewrite read_any_fq by assumption. reflexivity.
-  - unfold table_ok in H. cbn [tname tschema] in H. apply Bool.andb_true_iff in H as [Hn Hs].
-    unfold render_table. cbn [tname tschema].
-    unfold read_table_any. rewrite sapp_assoc. rewrite read_any_fq by assumption.
-    change (("." ++ fqq QDouble n) ++ String "(" rest) with (String "." (fqq QDouble n ++ String "(" rest)).
-    cbv iota. rewrite Ascii.eqb_refl. rewrite read_any_fq by assumption. reflexivity.
-  - unfold table_ok in H. cbn [tname tschema] in H. apply Bool.andb_true_iff in H as [Hn _].
-    unfold render_table. cbn [tname tschema].
-    unfold read_table_any. rewrite read_any_fq by assumption. reflexivity.
+    change (fqq QDouble s) with (render_table QDouble (tbl s)). apply G.
+    unfold table_ok, tbl. cbn [tname tschema talias forallb is_some negb]. now rewrite H.
+  - now apply G.
 Qed.
 
 (* ---------- the column list ---------- *)
